@@ -70,12 +70,14 @@ theorem FinWalk.edges {E : α → α → Prop} {a b : α} {l : List α} (h : Fin
 
 /-- unroll a closed walk into an infinite periodic walk -/
 theorem FinWalk.unroll {E : α → α → Prop} {c : α} {l : List α} (h : FinWalk E c c l) :
-    ∃ w : ℕ → α, w 0 = c ∧ (∀ i, E (w i) (w (i+1))) ∧ (∀ i, w i ∈ l) ∧ (∀ x ∈ l, ∀ i, ∃ j, i ≤ j ∧ w j = x) := by
+    ∃ w : ℕ → α, w 0 = c ∧ (∀ i, E (w i) (w (i+1))) ∧ (∀ i, w i ∈ l) ∧ (∀ x ∈ l, ∀ i, ∃ j, i ≤ j ∧ w j = x) ∧
+      (0 < l.length ∧ ∀ i, w (i + l.length) = w i) := by
   have hne := h.ne_nil
   have hpos : 0 < l.length := List.length_pos_iff.mpr hne
   have hhd := h.head
   obtain ⟨he, hlast⟩ := h.edges
-  refine ⟨fun i => l[i % l.length]'(Nat.mod_lt _ hpos), ?_, ?_, fun i => List.getElem_mem _, ?_⟩
+  refine ⟨fun i => l[i % l.length]'(Nat.mod_lt _ hpos), ?_, ?_, fun i => List.getElem_mem _, ?_,
+    hpos, fun i => by simp only [Nat.add_mod_right]⟩
   · cases l with
     | nil => exact absurd rfl hne
     | cons y l => simp at hhd; simp [hhd]
@@ -153,31 +155,35 @@ theorem FinWalk.cover {E : α → α → Prop} {c : α} (hc : TransGen E c c) :
     · simp [hcov t' ht']
 
 /-- **Soundness of the tableau** (abstract): an atom containing `g` that reaches a non-trivial,
-self-fulfilling strongly connected class yields a path of `R` from its state satisfying `g`. -/
+self-fulfilling strongly connected class yields an ultimately periodic path of `R` from its state satisfying `g`.
+`E` is any sub-relation of the tableau edges (the model restricts them to the enumerated atoms). -/
 theorem tableau_sound {R : σ → σ → Prop} {L : σ → List String} {g : RFm}
+    {E : Atom σ → Atom σ → Prop} (hE : ∀ a b, E a b → AEdge R L g a b)
     (a0 c : Atom σ) (C : List (Atom σ))
     (hg : holds L a0 g)
-    (hreach : ReflTransGen (AEdge R L g) a0 c)
-    (hcyc : TransGen (AEdge R L g) c c)
-    (hC : ∀ b ∈ C, TransGen (AEdge R L g) c b ∧ TransGen (AEdge R L g) b c)
-    (hClass : ∀ b, ReflTransGen (AEdge R L g) c b → ReflTransGen (AEdge R L g) b c → b ∈ C)
+    (hreach : ReflTransGen E a0 c)
+    (hcyc : TransGen E c c)
+    (hC : ∀ b ∈ C, TransGen E c b ∧ TransGen E b c)
+    (hClass : ∀ b, ReflTransGen E c b → ReflTransGen E b c → b ∈ C)
     (hsf : ∀ f h, RFm.U f h ∈ g.subs → ∀ b ∈ C, holds L b (.U f h) → ∃ b' ∈ C, holds L b' h) :
-    ∃ π : ℕ → σ, (∀ i, R (π i) (π (i+1))) ∧ π 0 = a0.1 ∧ satAt L π g 0 := by
+    ∃ π : ℕ → σ, (∀ i, R (π i) (π (i+1))) ∧ π 0 = a0.1 ∧ satAt L π g 0 ∧
+      ∃ N p, 0 < p ∧ ∀ i, N ≤ i → π (i + p) = π i := by
   -- periodic part
   obtain ⟨l, hl, hcov⟩ := FinWalk.cover hcyc C hC
-  obtain ⟨wc, hwc0, hwce, hwcl, hwcv⟩ := hl.unroll
+  obtain ⟨wc, hwc0, hwce, hwcl, hwcv, hppos, hper⟩ := hl.unroll
   have hwcC : ∀ i, wc i ∈ C := fun i => by
     obtain ⟨h1, h2⟩ := hl.mem_reach _ (hwcl i)
     exact hClass _ h1 h2.to_reflTransGen
   -- whole walk: prefix then periodic part
-  have key : ∃ w : ℕ → Atom σ, w 0 = a0 ∧ (∀ i, AEdge R L g (w i) (w (i+1))) ∧
-      ∃ N, (∀ i, N ≤ i → w i ∈ C) ∧ (∀ x ∈ C, ∀ i, ∃ j, i ≤ j ∧ w j = x) := by
+  have key : ∃ w : ℕ → Atom σ, w 0 = a0 ∧ (∀ i, E (w i) (w (i+1))) ∧
+      ∃ N, (∀ i, N ≤ i → w i ∈ C) ∧ (∀ x ∈ C, ∀ i, ∃ j, i ≤ j ∧ w j = x) ∧
+        (∀ i, N ≤ i → w (i + l.length) = w i) := by
     clear hg
     induction hreach using ReflTransGen.head_induction_on with
-    | refl => exact ⟨wc, hwc0, hwce, 0, fun i _ => hwcC i, fun x hx i => hwcv x (hcov x hx) i⟩
+    | refl => exact ⟨wc, hwc0, hwce, 0, fun i _ => hwcC i, fun x hx i => hwcv x (hcov x hx) i, fun i _ => hper i⟩
     | @head a b hab _ ih =>
-      obtain ⟨w, hw0, hwe, N, hN, hv⟩ := ih
-      refine ⟨fun n => Nat.casesOn n a w, rfl, ?_, N+1, ?_, ?_⟩
+      obtain ⟨w, hw0, hwe, N, hN, hv, hp⟩ := ih
+      refine ⟨fun n => Nat.casesOn n a w, rfl, ?_, N+1, ?_, ?_, ?_⟩
       · intro i; cases i with
         | zero => simpa [hw0] using hab
         | succ k => exact hwe k
@@ -187,9 +193,15 @@ theorem tableau_sound {R : σ → σ → Prop} {L : σ → List String} {g : RFm
       · intro x hx i
         obtain ⟨j, hij, hj⟩ := hv x hx i
         exact ⟨j+1, by omega, hj⟩
-  obtain ⟨w, hw0, hwe, N, hN, hv⟩ := key
+      · intro i hi; cases i with
+        | zero => omega
+        | succ k =>
+          have := hp k (by omega)
+          rw [show k + 1 + l.length = (k + l.length) + 1 by omega]
+          exact this
+  obtain ⟨w, hw0, hwe, N, hN, hv, hp⟩ := key
   have W : Walk L g w := by
-    refine ⟨fun i f hf => (hwe i).2 f hf, ?_⟩
+    refine ⟨fun i f hf => (hE _ _ (hwe i)).2 f hf, ?_⟩
     intro i f h hm hU
     -- persistence of an unfulfilled U
     have pers : ∀ k, i ≤ k → (∃ j, i ≤ j ∧ j < k ∧ holds L (w j) h) ∨ holds L (w k) (.U f h) := by
@@ -199,7 +211,7 @@ theorem tableau_sound {R : σ → σ → Prop} {L : σ → List String} {g : RFm
       | succ k hik ih =>
         rcases ih with ⟨j, h1, h2, h3⟩ | ih
         · exact Or.inl ⟨j, h1, by omega, h3⟩
-        · rcases (holds_U_step hm (hwe k)).mp ih with h1 | ⟨_, h2⟩
+        · rcases (holds_U_step hm (hE _ _ (hwe k))).mp ih with h1 | ⟨_, h2⟩
           · exact Or.inl ⟨k, hik, by omega, h1⟩
           · exact Or.inr h2
     rcases pers (max i N) (le_max_left _ _) with ⟨j, h1, _, h3⟩ | hk
@@ -207,7 +219,8 @@ theorem tableau_sound {R : σ → σ → Prop} {L : σ → List String} {g : RFm
     · obtain ⟨b', hb', hh⟩ := hsf f h hm _ (hN _ (le_max_right _ _)) hk
       obtain ⟨j, hj, hwj⟩ := hv b' hb' (max i N)
       exact ⟨j, le_trans (le_max_left _ _) hj, by rw [hwj]; exact hh⟩
-  refine ⟨fun i => (w i).1, fun i => (hwe i).1, by simp [hw0], ?_⟩
+  refine ⟨fun i => (w i).1, fun i => (hE _ _ (hwe i)).1, by simp [hw0], ?_,
+    N, l.length, hppos, fun i hi => by simp only [hp i hi]⟩
   have := (truth W g (self_mem_subs g) 0).mp (by rw [hw0]; exact hg)
   exact this
 
